@@ -47,6 +47,9 @@ type mapIter struct {
 	lenAt   *Term
 	str     bool
 	slice   bool
+	asc     bool
+	lo, hi  int
+	forced  []*Term
 }
 
 type UnsupportedError struct{ msg string }
